@@ -57,7 +57,8 @@ PARAMS = OrderedDict(
         ("x", _A),
     ]
 )
-VARS = [("v", "A"), ("vb", "B"), ("v2", "A")]  # v2: second A-variable (capture cases)
+# v2: second A-variable (capture cases); ("v", "B"): same NAME as ("v", "A") but another type
+VARS = [("v", "A"), ("vb", "B"), ("v2", "A"), ("v", "B")]
 
 
 def _F(z):
